@@ -227,10 +227,23 @@ fn failing_cases() -> Vec<Case> {
         ("Debug", format!("{foreign} struct X(#[debug(ignore)] #[debug(ignore)] u8);")),
         ("Deref", format!("{foreign} struct X(u8, #[doc = \"f\"] u8);")),
         ("Add", format!("{foreign} enum X {{ #[doc = \"v\"] A }}")),
+        // Deref / DerefMut on structs without a field
+        ("Deref", format!("{foreign} struct X;")),
+        ("DerefMut", format!("{foreign} pub struct X();")),
+        ("Deref, DerefMut", format!("{foreign} struct X {{}}")),
+        ("Debug, Deref", format!("{foreign} #[debug(bound())] struct X;")),
         ("Not, Debug, Default", format!("{foreign} #[derive(Clone)] #[repr(u8)] enum X {{ #[default] A {{ #[debug(ignore)] x: u8 }} = 1, #[doc = \"v\"] B = 2 }}")),
         ("Debug, Add", format!("{foreign} enum X {{ A(#[debug(ignore)] u8), #[allow(unused)] B }}")),
     ] {
         v.push(Case { vector: vec![], attr: attr.to_string(), input: it.clone(), expected: it, kind: "failing-derivation" });
+    }
+    // enums without variants: further derive_ex lists and type-level helper attributes are consumed all the same
+    for (attr, input, expected) in [
+        ("Debug, PartialEq", format!("{foreign} #[derive_ex(Eq)] #[debug(bound())] pub enum X {{}}"), format!("{foreign} pub enum X {{}}")),
+        ("Clone", format!("{foreign} #[derive_ex(Hash, Debug)] #[hash(bound())] #[repr(u8)] enum X {{}}"), format!("{foreign} #[repr(u8)] enum X {{}}")),
+        ("Ord, PartialOrd, Eq, PartialEq", format!("#[ord(bound())] {foreign} #[derive_ex(Default)] #[default(loop {{}})] enum X {{}}"), format!("{foreign} enum X {{}}")),
+    ] {
+        v.push(Case { vector: vec![], attr: attr.to_string(), input, expected, kind: "empty-enum" });
     }
     for it in ["fn f<T>(x: T) -> T { x }", "pub trait Tr { fn f(&self); }", "union U { a: u8, b: u16 }", "pub mod m { pub struct Y; }", "const C: u8 = 0;", "type A<T> = Option<T>;", "static S: u8 = 1;", "impl X { fn f(&self) {} }", "impl !Send for X {}"] {
         let it = format!("{foreign} {it}");
